@@ -1,6 +1,7 @@
 /- hand-written driver operations (models that are not generated, and aliasing patterns) -/
 import Driver.Proto
 import GoldilocksVerif.Gen.Scalar
+import GoldilocksVerif.Model.Inv
 namespace Driver
 open Gen.Scalar
 
@@ -19,8 +20,24 @@ def c01Alias (fn : String) (args : List Arg) : Option String :=
   | some f, [.w a] => if fn.endsWith "_ab" || fn.endsWith "_oab" then okW [f a a] else none
   | _, _ => none
 
+/-- C10: hand models of inv / div / exp.  `none` from the model = the library ends the process with exit(-1),
+    which the harness (forked child) reports as `err exit 255`. -/
+def c10 (fn : String) (args : List Arg) : Option String :=
+  match fn, args with
+  | "inv", [.w a] => match GoldilocksVerif.Model.inv a with
+      | some r => okW [r]
+      | none => some "err exit 255"
+  | "div", [.w a, .w b] => match GoldilocksVerif.Model.div a b with
+      | some r => okW [r]
+      | none => some "err exit 255"
+  | "exp", [.w b, .w e] => okW [GoldilocksVerif.Model.exp b e]
+  | _, _ => none
+
 def handDispatch (fn : String) (args : List Arg) : Option String :=
   match c01Alias fn args with
+  | some s => some s
+  | none =>
+  match c10 fn args with
   | some s => some s
   | none => none
 
